@@ -1489,26 +1489,61 @@ def _parse_back(ans):
     return {t for t in g}
 
 
+_INCONCLUSIVE = []     # reasons why a comparison of two answers could not be decided (statistics, never a violation)
+
+
+def _parse_back_twice(x):
+    """the quads / triples of a document, or None when it cannot be read — DETERMINISTICALLY: a failure is believed only
+    when a second attempt fails in the same way (a transient failure of the reader — memory pressure, an interrupted
+    system call — must not make a good document look unreadable)"""
+    errs = []
+    for _attempt in range(2):
+        try:
+            return _parse_back(x)
+        except core.CaseTimeout:
+            raise
+        except (MemoryError, OSError) as e:
+            errs.append("transient:" + type(e).__name__)
+        except Exception as e:
+            errs.append(type(e).__name__ + ":" + str(e)[:80])
+    if errs[0] != errs[1] or errs[0].startswith("transient:"):
+        _INCONCLUSIVE.append("reparse_unstable")
+        return _UNSTABLE
+    return None
+
+
+_UNSTABLE = object()
+
+
+def _iso(a, b):
+    """isoutil.iso, or None when its search budget is exhausted (inconclusive, not "different")"""
+    try:
+        return isoutil.iso(a, b)
+    except core.CaseTimeout:
+        raise
+    except (RuntimeError, RecursionError, MemoryError):
+        _INCONCLUSIVE.append("iso_budget")
+        return None
+
+
 def same_answer(a, b):
-    """True / False / None (undecidable: texts differ and cannot be re-parsed)"""
+    """True / False / None.  None = the comparison is INCONCLUSIVE (texts differ and neither can be re-parsed, the
+    re-parse is unstable, the isomorphism search gave up): counted, never reported as a difference.  Two documents
+    are compared as GRAPHS (prefix tables legitimately differ once an earlier read has bound a prefix; blank-node
+    labels are fresh): equal text, else re-parsed and compared up to blank-node renaming."""
     if isinstance(a, Text) and isinstance(b, Text):
         if a.text == b.text:
             return True
-        parsed = []
-        for x in (a, b):
-            try:
-                parsed.append(_parse_back(x))
-            except core.CaseTimeout:
-                raise
-            except Exception:
-                parsed.append(None)
+        parsed = [_parse_back_twice(a), _parse_back_twice(b)]
+        if parsed[0] is _UNSTABLE or parsed[1] is _UNSTABLE:
+            return None
         if parsed[0] is None and parsed[1] is None:
             return None
         if parsed[0] is None or parsed[1] is None:
-            return False          # one answer is a readable document, the other is not
-        return isoutil.iso(parsed[0], parsed[1])
+            return False          # one answer is (reproducibly) a readable document, the other (reproducibly) is not
+        return _iso(parsed[0], parsed[1])
     if isinstance(a, Fresh) and isinstance(b, Fresh):
-        return isoutil.iso(a.tuples, b.tuples)
+        return _iso(a.tuples, b.tuples)
     if type(a) is not type(b):
         return False
     return a == b
@@ -1578,15 +1613,26 @@ def _reference_one(case, k, doc_urls):
     return _enc(_call(case, top, target, case["reads"][k]))
 
 
-def _fork_collect(fn):
+def _child_limits(scale=1):
+    """a forked reference child may burn REF_TIMEOUT_S seconds of CPU (independent of the machine's load), with core's
+    wall-clock backstop factor; both kill the child, whose answer then counts as unavailable (never as different)"""
+    for sig in (signal.SIGALRM, signal.SIGPROF):
+        signal.signal(sig, signal.SIG_DFL)
+    signal.setitimer(signal.ITIMER_PROF, REF_TIMEOUT_S * scale)
+    signal.setitimer(signal.ITIMER_REAL, REF_TIMEOUT_S * scale * float(getattr(core, "WALL_FACTOR", 6)))
+
+
+def _fork_collect(fn, scale=1):
     """run fn() in a forked child (alarm-guarded) and return its JSON result, or None"""
     r, w = os.pipe()
     pid = os.fork()
     if pid == 0:
         try:
             os.close(r)
-            signal.alarm(REF_TIMEOUT_S)
-            os.write(w, _json.dumps(fn()).encode())
+            _child_limits(scale)
+            data = _json.dumps(fn()).encode()
+            while data:                       # a pipe write may be partial
+                data = data[os.write(w, data):]
         except BaseException:  # noqa: BLE001
             pass
         finally:
@@ -1630,7 +1676,8 @@ def _ref_case(case, doc_urls):
 def _zygote_loop(rf, wfd):
     for line in rf:
         req = _json.loads(line)
-        out = _fork_collect(lambda: _ref_case(req["case"], req["doc_urls"]))
+        # the child that runs the whole case also waits for one grandchild per read: a larger allowance
+        out = _fork_collect(lambda: _ref_case(req["case"], req["doc_urls"]), scale=8)
         os.write(wfd, (_json.dumps(out) + "\n").encode())
 
 
@@ -1694,6 +1741,27 @@ def run_in_pristine(case):
         return None
 
 
+def _confirm_history_dependent(case, res):
+    """A `history-dependent` difference depends on the case alone (sequence and references both start from a pristine
+    process image), so it must show again when the whole comparison is repeated in ANOTHER pristine process.  One that
+    does not (a reference child squeezed by the machine, a transient failure while reading an answer back) is an
+    inconclusive comparison: counted (`reference_unconfirmed`), not reported."""
+    hd = [v for v in res["viol"] if v.startswith("history-dependent:")]
+    if not hd:
+        return res
+    key = lambda v: v.split(" answered ")[0]  # noqa: E731
+    again = run_in_pristine(case)
+    confirmed = set() if again is None else {key(v) for v in again["viol"] if v.startswith("history-dependent:")}
+    keep = []
+    for v in res["viol"]:
+        if v.startswith("history-dependent:") and key(v) not in confirmed:
+            res["stats"]["reference_unconfirmed"] = res["stats"].get("reference_unconfirmed", 0) + 1
+            continue
+        keep.append(v)
+    res["viol"] = keep
+    return res
+
+
 def run_impl(case):
     """writes the loadable documents into a temp dir (removed afterwards) when a read names one"""
     if _ZYG is None:
@@ -1712,7 +1780,7 @@ def run_impl(case):
         if case.get("ref"):
             res = run_in_pristine(case)
             if res is not None:
-                return res
+                return _confirm_history_dependent(case, res)
             res = _run_impl(case)
             res["stats"]["reference_unavailable"] = 1
             return res
@@ -1725,6 +1793,7 @@ def run_impl(case):
 
 def _run_impl(case, refs=None):
     _PREPARED.clear()
+    del _INCONCLUSIVE[:]
     top, target = build(case)
     build_aux(case, top)
     obs, viol, stats = [], [], {}
@@ -1837,6 +1906,9 @@ def _run_impl(case, refs=None):
             viol.append(f"history-dependent:{api_name(reads[k])}: read #{k} {reads[k]!r} answered {_short(mine)} "
                         f"after the reads {reads[:k]!r} of this case, but {_short(ref)} when it is the first read a "
                         f"process executes on the same unchanged graph")
+    for reason in _INCONCLUSIVE:
+        bump("comparison_inconclusive:" + reason)
+    del _INCONCLUSIVE[:]
     if case.get("aba"):
         bump("aba_" + case["aba"])
     bump("cfg_" + case["cfg"])
